@@ -252,8 +252,8 @@ def run(ctx):
         plan = [(520, 5, 'clean', 0), (300, 5, 'wild', 100_000)]
         other = 40
     else:
-        plan = [(4000, 20, 'clean', 0), (6000, 20, 'wild', 100_000)]
-        other = 600
+        plan = [(2500, 16, 'clean', 0), (5000, 20, 'wild', 100_000)]
+        other = 400
     for n, steps, profile, base in plan:
         specs = history_specs(ctx, n, steps, profile, base)
         results += _pool_map(_hist_shard, shard(specs, 6 if ctx.quick else 12))
